@@ -28,16 +28,24 @@ Theorem waiter_all_resolved_at_termination_timer : forall ops w now evs gt etx o
 Proof. exact waiter_all_resolved_at_termination_timer_l. Qed.
 Print Assumptions waiter_all_resolved_at_termination_timer.
 
-(* ... but a waiter created AFTER ConnectionTerminated was processed is never resolved (finding C19-F1):
-   ping() on a terminated connection stays pending under every continuation in which the connection
-   emits no further event (ConnectionTerminated is its last event). *)
-Theorem waiter_after_termination_refuted :
-  uids_fresh st_init late_ping /\
-  closed (run st_init late_ping) = true /\
-  forall more, Forall no_events more ->
-    nth_error (futs (run st_init (late_ping ++ more))) O = Some FPending.
-Proof. exact waiter_after_termination_refuted_l. Qed.
-Print Assumptions waiter_after_termination_refuted.
+(* ... and from then on none is pending ever again: whenever the closed event is set, at any point of any
+   schedule, no future is pending (with C19-fix-1; before the fix a ping() issued after termination stayed
+   pending forever -- docs/C19.md F1). *)
+Theorem no_waiter_pending_once_closed : forall ops, uids_fresh st_init ops ->
+  closed (run st_init ops) = true -> forall i, nth_error (futs (run st_init ops)) i <> Some FPending.
+Proof. exact no_waiter_pending_once_closed_l. Qed.
+Print Assumptions no_waiter_pending_once_closed.
+
+(* every waiter "created" after termination finishes immediately: ping() raises ConnectionError without
+   creating a future or touching the state, wait_connected() returns or raises ConnectionError, a reader
+   from create_stream() is already at EOF *)
+Theorem api_after_termination : forall s, closed s = true ->
+  (forall uid gt e, step s (OPing uid gt e) = (Some X_CONNECTION_ERROR, [], s)) /\
+  (cwait s = None -> step s OWaitConnected = (if connected s then (None, [1], s) else (Some X_CONNECTION_ERROR, [], s))) /\
+  (forall sid out s', step s (OCreateStream sid) = (None, out, s') ->
+     exists r, rd_get sid (readers s') = Some r /\ rd_eof r = true /\ rd_buf r = []).
+Proof. exact api_after_termination_l. Qed.
+Print Assumptions api_after_termination.
 
 (* the loop holds exactly the timer handle _timer refers to (never two), with deadline _timer_at, and
    _handle_timer never runs with _timer_at = None *)
